@@ -699,6 +699,188 @@ def rule_routing(ctx, g: Grammar) -> None:
     ctx.chk.floor("C19.handler-routing", 20)
 
 
+def rule_handler_model(ctx, g: Grammar) -> None:
+    """C19.handler-model: every statement handler of SB21Helper evaluated as a whole function on model operand dictionaries; command
+    constructors, file loading and the numeric helpers of spsdk.utils.misc are leaves.  What comes out must be the one command the
+    statement prescribes, with the stated operands, the documented defaults for omitted operands, the load -> program switch for the
+    fuse / IFR memory (id 4), the 4 / 8 byte split of a programmed blob and the refusal of operands that do not fit."""
+    import struct as _struct
+    prog = ctx.prog
+    helper = ctx.cls(HELPER, "SB21Helper")
+    Obj = ordereval.Obj
+
+    def swap32(x: int) -> int:
+        return int.from_bytes(x.to_bytes(4, "big"), "little")
+
+    def nbytes(v: int) -> int:
+        n_ = max(1, (v.bit_length() + 7) // 8)
+        return n_ if n_ <= 2 else -(-n_ // 4) * 4
+
+    def leaves(c: ast.Call, ev):
+        f = norm(c.func)
+        name = A.call_name(c)
+        if name and name.startswith("Cmd") and name[3:4].isupper():
+            k = prog.resolve(helper.module, name)
+            init = prog.find_method(k, "__init__") if isinstance(k, ClassInfo) else None
+            pn = init.params()[1:] if init else []
+            bound = {}
+            for i, a_ in enumerate(c.args):
+                bound[pn[i] if i < len(pn) else f"#{i}"] = ev.ev(a_)
+            for kw in c.keywords:
+                bound[kw.arg or "**"] = ev.ev(kw.value)
+            return (name, tuple(sorted(bound.items(), key=lambda kv: kv[0])))
+        if f == "value_to_int" and len(c.args) == 1:
+            v = ev.ev(c.args[0])
+            if isinstance(v, (bytes, bytearray)):
+                return int.from_bytes(v, "big")
+            if isinstance(v, str):
+                try:
+                    return int(v, 0)
+                except ValueError:
+                    raise ordereval.ModelRaise(ordereval.Outcome("raise", None, c))
+            return v
+        if f == "load_binary":
+            return b"FILE:" + str(ev.ev(c.args[0])).encode()
+        if f == "self.get_mem_id" and len(c.args) == 1:
+            v = ev.ev(c.args[0])
+            return int(v, 0) if isinstance(v, str) else v
+        if f == "get_bytes_cnt_of_int" and len(c.args) == 1 and not c.keywords:
+            return nbytes(ev.ev(c.args[0]))
+        if f == "value_to_bytes" and len(c.args) == 1 and [k.arg for k in c.keywords] == ["byte_cnt"]:
+            return ev.ev(c.args[0]).to_bytes(ev.ev(c.keywords[0].value), "big")
+        if f == "swap32" and len(c.args) == 1:
+            v = ev.ev(c.args[0])
+            if not 0 <= v <= 0xFFFFFFFF:
+                raise ordereval.ModelRaise(ordereval.Outcome("raise", None, c))
+            return swap32(v)
+        if f in ("struct.pack", "pack") and c.args:
+            try:
+                return _struct.pack(ev.ev(c.args[0]), *[x for a_ in c.args[1:] for x in (ev.ev(a_.value) if isinstance(a_, ast.Starred) else (ev.ev(a_),))])
+            except _struct.error:
+                raise ordereval.ModelRaise(ordereval.Outcome("raise", "struct.error", c))
+        if f in ("ExtMemId.from_tag", "VersionCheckType.from_tag") and len(c.args) == 1:
+            return (f.split(".")[0], ev.ev(c.args[0]))
+        if f == "KeyBlob":
+            kinit = prog.find_method(kbc, "__init__")
+            kpn = kinit.params()[1:] if kinit else []
+            kw = {kpn[i]: ev.ev(a_) for i, a_ in enumerate(c.args) if i < len(kpn)}
+            kw.update({k.arg: ev.ev(k.value) for k in c.keywords})
+            return Obj(_kb=tuple(sorted(kw.items())), KEY_FLAG_ADE=ADE, KEY_FLAG_VLD=VLD, **kw)
+        if f in ("struct.unpack", "unpack") and len(c.args) == 2:
+            try:
+                return tuple(_struct.unpack(ev.ev(c.args[0]), bytes(ev.ev(c.args[1]))))
+            except _struct.error:
+                raise ordereval.ModelRaise(ordereval.Outcome("raise", "struct.error", c))
+        if isinstance(c.func, ast.Attribute) and c.func.attr in ("encrypt_image", "export") and isinstance(c.func.value, ast.Name):
+            o = ev.env.get(c.func.value.id)
+            if isinstance(o, Obj) and "_kb" in o.__dict__:
+                kw = {k.arg: ev.ev(k.value) for k in c.keywords}
+                kw.update({f"#{i}": ev.ev(a_) for i, a_ in enumerate(c.args)})
+                return (c.func.attr, o.__dict__["_kb"], tuple(sorted(kw.items())))
+        if f == "align_block" and len(c.args) == 2 and not c.keywords:
+            d_ = bytes(ev.ev(c.args[0]))
+            return d_ + bytes(-len(d_) % ev.ev(c.args[1]))
+        if f == "bytes.fromhex" and len(c.args) == 1:
+            return bytes.fromhex(ev.ev(c.args[0]))
+        if f == "str" and len(c.args) == 1:
+            return "s"
+        return ordereval.NOT_MODELLED
+    kbc = prog.resolve(helper.module, "KeyBlob")
+    ADE = prog.fold(kbc.consts.get("KEY_FLAG_ADE"), kbc.module, kbc) if isinstance(kbc, ClassInfo) else None
+    VLD = prog.fold(kbc.consts.get("KEY_FLAG_VLD"), kbc.module, kbc) if isinstance(kbc, ClassInfo) else None
+    if not isinstance(ADE, int) or not isinstance(VLD, int):
+        raise AnalysisError("C19.handler-model: KeyBlob.KEY_FLAG_ADE / KEY_FLAG_VLD do not fold")
+    calls = ctx.model_calls(leaves, classes={"SB21Helper": helper})
+    Z = "ZF"
+
+    def cmd(name, **kw):
+        return (name, tuple(sorted(kw.items(), key=lambda kv: kv[0])))
+
+    def prog_cmd(address, mem, w1, w2):
+        return cmd("CmdProg", address=address, data_word1=w1, data_word2=w2, mem_id=mem)
+    RAISE = "raise"
+    cases = [
+        # load
+        ("_load", {"file": "a.bin", "address": 0x1000}, cmd("CmdLoad", address=0x1000, data=b"FILE:a.bin", mem_id=0, zero_filling=Z)),
+        ("_load", {"file": "a.bin", "address": "0x20", "load_opt": 9}, cmd("CmdLoad", address=0x20, data=b"FILE:a.bin", mem_id=9, zero_filling=Z)),
+        ("_load", {"values": "1,aabbccdd,0", "address": 8}, cmd("CmdLoad", address=8, data=_struct.pack("<3L", 1, 0xAABBCCDD, 0), mem_id=0, zero_filling=Z)),
+        ("_load", {"values": "ffffffff", "address": 8, "load_opt": 2}, cmd("CmdLoad", address=8, data=_struct.pack("<L", 0xFFFFFFFF), mem_id=2, zero_filling=Z)),
+        ("_load", {"values": "100000000", "address": 8}, RAISE),
+        ("_load", {"values": "aabbccdd", "address": 8, "load_opt": 4}, prog_cmd(8, 4, swap32(0xAABBCCDD), 0)),
+        ("_load", {"pattern": 0x55, "address": 8, "load_opt": 4}, prog_cmd(8, 4, 0x55, 0)),
+        ("_load", {"pattern": 0x55, "address": 8}, RAISE),
+        ("_load", {"address": 8}, RAISE),
+        # program
+        ("_prog", {"values": "1", "address": 4, "load_opt": 4}, prog_cmd(4, 4, swap32(1), 0)),
+        ("_prog", {"values": "aabbccdd", "address": 4}, prog_cmd(4, 4, swap32(0xAABBCCDD), 0)),
+        ("_prog", {"values": "aabbccddee", "address": 4, "load_opt": 4}, prog_cmd(4, 4, swap32(0xAA), swap32(0xBBCCDDEE))),
+        ("_prog", {"values": "0102030405060708", "address": 4, "load_opt": 4}, prog_cmd(4, 4, swap32(0x01020304), swap32(0x05060708))),
+        ("_prog", {"values": "010203040506070809", "address": 4, "load_opt": 4}, RAISE),
+        ("_prog", {"pattern": 0x12345678, "address": 4, "load_opt": 4}, prog_cmd(4, 4, 0x12345678, 0)),
+        ("_prog", {"pattern": "0xFFFFFFFF", "address": 4, "load_opt": 4}, prog_cmd(4, 4, 0xFFFFFFFF, 0)),
+        ("_prog", {"pattern": 0x100000000, "address": 4, "load_opt": 4}, RAISE),
+        ("_prog", {"address": 4, "load_opt": 4}, RAISE),
+        # erase / enable / call / jump / key store / version check / fill
+        ("_erase_cmd_handler", {"address": 0x800, "length": 0x100, "mem_opt": 8}, cmd("CmdErase", address=0x800, length=0x100, flags=0, mem_id=8)),
+        ("_erase_cmd_handler", {"address": 0, "flags": 1}, cmd("CmdErase", address=0, length=0, flags=1, mem_id=0)),
+        ("_erase_cmd_handler", {"address": "0x10", "length": "0x20", "flags": 2, "mem_opt": "3"}, cmd("CmdErase", address=0x10, length=0x20, flags=2, mem_id=3)),
+        ("_enable", {"address": 0x2000, "mem_opt": 9}, cmd("CmdMemEnable", address=0x2000, size=4, mem_id=9)),
+        ("_enable", {"address": 0x2000, "size": 16}, cmd("CmdMemEnable", address=0x2000, size=16, mem_id=0)),
+        ("_jump", {"address": 0x100}, cmd("CmdJump", address=0x100, argument=0, spreg=None)),
+        ("_jump", {"address": 0x100, "argument": 7, "spreg": 0x2000}, cmd("CmdJump", address=0x100, argument=7, spreg=0x2000)),
+        ("_call", {"address": 0x100}, cmd("CmdCall", address=0x100, argument=0)),
+        ("_call", {"address": "0x100", "argument": 3}, cmd("CmdCall", address=0x100, argument=3)),
+        ("_keystore_to_nv", {"address": 0x8000800, "mem_opt": 9}, cmd("CmdKeyStoreRestore", address=0x8000800, controller_id=("ExtMemId", 9))),
+        ("_keystore_from_nv", {"address": 0x8000800, "mem_opt": 9}, cmd("CmdKeyStoreBackup", address=0x8000800, controller_id=("ExtMemId", 9))),
+        ("_version_check", {"ver_type": 1, "fw_version": 0x16}, cmd("CmdVersionCheck", ver_type=("VersionCheckType", 1), version=0x16)),
+        ("_reset", {}, cmd("CmdReset")),
+        ("_load", {"values": "-1", "address": 8}, RAISE),
+    ]
+    # encrypt / keywrap: the key blob with the statement's id (not the first one) supplies range, key and counter
+    K0, K1 = "00" * 16, "0102030405060708090a0b0c0d0e0f10"
+
+    def blobs(end1, extra1=None):
+        c1 = {"start": 0x1000, "end": end1, "key": K1, "counter": "1122334455667788"}
+        c1.update(extra1 or {})
+        return ({"keyblob_id": 0, "keyblob_content": ({"start": 0, "end": 0x3FF, "key": K0, "counter": "00" * 8},)},
+                {"keyblob_id": 1, "keyblob_content": (c1,)})
+
+    def kb(end1):
+        return tuple(sorted({"start_addr": 0x1000, "end_addr": end1, "key": bytes.fromhex(K1), "counter_iv": bytes.fromhex("1122334455667788")}.items()))
+    words = _struct.pack("<2L", 1, 2)
+    for end1, swap_opt, swap in ((0x13FF, None, False), (0x13FF, {"byteSwap": 1}, True), (0x13FF, {"byteSwap": 0}, False)):
+        cases.append(("_encrypt", {"keyblob_id": 1, "keyblobs": blobs(end1, swap_opt), "address": 0x1000, "values": "1,2"},
+                      cmd("CmdLoad", address=0x1000, data=("encrypt_image", kb(end1), tuple(sorted({"base_address": 0x1000, "data": words + bytes(512 - 8), "byte_swap": swap}.items()))))))
+    for end1 in (0x13FC, 0x13FD, 0x13FE):  # ADE and VLD not both set: the data is loaded as it is
+        cases.append(("_encrypt", {"keyblob_id": 1, "keyblobs": blobs(end1), "address": 0x1000, "values": "1,2"}, cmd("CmdLoad", address=0x1000, data=words)))
+    cases.append(("_encrypt", {"keyblob_id": 1, "keyblobs": blobs(0x13FF), "address": 0x1000, "file": "x.bin"},
+                  cmd("CmdLoad", address=0x1000, data=("encrypt_image", kb(0x13FF), tuple(sorted({"base_address": 0x1000, "data": b"FILE:x.bin" + bytes(512 - 10), "byte_swap": False}.items()))))))
+    cases.append(("_encrypt", {"keyblob_id": 7, "keyblobs": blobs(0x13FF), "address": 0x1000, "values": "1,2"}, RAISE))
+    cases.append(("_encrypt", {"keyblob_id": 1, "keyblobs": blobs(0x13FF), "address": 0x1000}, RAISE))
+    cases.append(("_keywrap", {"keyblob_id": 1, "keyblobs": blobs(0x13FF), "address": 0x2000, "values": "KEK"},
+                  cmd("CmdLoad", address=0x2000, data=("export", kb(0x13FF), (("kek", "KEK"),)))))
+    cases.append(("_keywrap", {"keyblob_id": 5, "keyblobs": blobs(0x13FF), "address": 0x2000, "values": "KEK"}, RAISE))
+    probs: Dict[str, List[str]] = {}
+    n = 0
+    for hname, args, want in cases:
+        fn = ctx.own(HELPER, "SB21Helper", hname)
+        me = Obj(_cls=helper, zero_filling=Z, search_paths=("sp",))
+        try:
+            out = ordereval.Evaluator({"self": me, fn.params()[1]: dict(args)}, ctx.fold_sym(fn), opaque_return=False, call_value=calls).run(A.body_of(fn.node))
+        except ordereval.Unsupported as ex:
+            raise AnalysisError(f"C19.handler-model: {fn.qual} left the fragment: {ex}")
+        n += 1
+        got = RAISE if out.kind == "raise" else out.value
+        if got != want:
+            probs.setdefault(hname, []).append(f"{args} -> {got!r}, the statement prescribes {want!r}")
+    handlers = sorted({c_[0] for c_ in cases})
+    for hname in handlers:
+        ctx.chk.decide(not probs.get(hname), "C19.handler-model", f"{HELPER}::SB21Helper.{hname}", f"produces the prescribed command on every model statement ({sum(1 for c_ in cases if c_[0] == hname)} models)",
+                       "; ".join(probs.get(hname, [])[:2])[:600], "", A.loc(HELPER, ctx.own(HELPER, "SB21Helper", hname).node))
+    ctx.chk.exhaustive_rules.add("C19.handler-model")
+    ctx.chk.floor("C19.handler-model", 10)
+
+
 # ------------------------------------------------------------------------------ unsupported
 UNSUPPORTED = [
     ("source_def", "source_def IDENT ASSIGN source_value LPAREN source_attr_list RPAREN SEMI"),
@@ -1039,6 +1221,7 @@ def run(ctx) -> None:
     ctx.rule(rule_precedence, g)
     ctx.rule(rule_handlers_keyflow, g)
     ctx.rule(rule_routing, g)
+    ctx.rule(rule_handler_model, g)
     ctx.rule(rule_refuse, g)
     ctx.rule(rule_operands, g)
     ctx.rule(rule_sections, g)
